@@ -16,6 +16,7 @@ pub const BW_CLASSES: &[&str] = &[
     "end_gt_chrom_length",
     "unknown_chromosome",
     "chromosomes_out_of_order_under_ALL",
+    "stray_line_of_other_chromosome",
     "malformed_line_missing_field",
     "malformed_line_non_numeric",
     "malformed_line_negative",
@@ -32,6 +33,7 @@ pub const BB_CLASSES: &[&str] = &[
     "start_ge_chrom_length",
     "unknown_chromosome",
     "chromosomes_out_of_order_under_ALL",
+    "stray_line_of_other_chromosome",
     "malformed_line_missing_field",
     "malformed_line_non_numeric",
     "malformed_line_negative",
@@ -202,6 +204,7 @@ pub fn c13(ctx: &Ctx, begin: &mut dyn FnMut(J)) -> Outcome {
     let (off, ipos) = pick_pos(&mut r, hi - lo);
     let mut idx = lo + off;
     let mut text_override: Option<String> = None;
+    let mut coarse_index: Option<Vec<(u64, String)>> = None;
     let mut expect_err = true;
     let mut pos_desc = format!("{}_item_of_{}_chromosome", ipos, cpos);
     macro_rules! both {
@@ -319,6 +322,40 @@ pub fn c13(ctx: &Ctx, begin: &mut dyn FnMut(J)) -> Outcome {
                 }
             );
             pos_desc = format!("{}_chromosome", cpos);
+        }
+        "stray_line_of_other_chromosome" => {
+            // one line of another chromosome in the middle (or at the end) of chromosome ci's run: under sort type
+            // ALL the file is not sorted. Text sources only. For the parallel source the index is either the real
+            // index_chroms result or, half of the time, a *coarse* index listing only the main runs -- what
+            // index_chroms returns for a large file whose bisection never lands on the stray line -- so that the
+            // per-chromosome reader task's own "line of another chromosome" refusal is what has to catch it.
+            if opts.source == Source::Serial {
+                opts.source = if r.chance(1, 3) { Source::SerialText } else { Source::Parallel };
+            }
+            both!(fix_sorted_bw(&mut flat_bw), fix_sorted_bb(&mut flat_bb));
+            let mut lines: Vec<String> = both!(
+                flat_bw.iter().map(|(c, v)| format!("{}\t{}\t{}\t{:?}", c, v.start, v.end, v.value)).collect(),
+                flat_bb.iter().map(|(c, v)| if v.rest.is_empty() { format!("{}\t{}\t{}", c, v.start, v.end) } else { format!("{}\t{}\t{}\t{}", c, v.start, v.end, v.rest) }).collect()
+            );
+            let names: Vec<String> = chrom_ranges.iter().map(|(lo, _)| both!(flat_bw[*lo].0.clone(), flat_bb[*lo].0.clone())).collect();
+            let cj = if ci + 1 < nchrom { ci + 1 } else { ci - 1 };
+            let stray = if is_bw { format!("{}\t0\t1\t1.0", names[cj]) } else { format!("{}\t0\t1", names[cj]) };
+            // strictly inside the run: before its first line or after its last one the stray line could simply join
+            // the neighbouring chromosome's run and leave a valid file
+            let at = (idx + 1).max(lo + 1).min(hi - 1);
+            lines.insert(at, stray);
+            let mut offs = vec![];
+            let mut o = 0u64;
+            for l in &lines {
+                offs.push(o);
+                o += l.len() as u64 + 1;
+            }
+            if opts.source == Source::Parallel && r.chance(1, 2) {
+                coarse_index = Some(chrom_ranges.iter().enumerate().map(|(k, (rlo, _))| (offs[if *rlo >= at { rlo + 1 } else { *rlo }], names[k].clone())).collect());
+                out.tag("parallel_source_with_coarse_index");
+            }
+            text_override = Some(lines.join("\n") + "\n");
+            pos_desc = format!("inside_run_of_{}_chromosome", cpos);
         }
         c if c.starts_with("malformed_line") => {
             // text sources only
@@ -467,7 +504,7 @@ pub fn c13(ctx: &Ctx, begin: &mut dyn FnMut(J)) -> Outcome {
     );
     let sink = MemSink::new();
     let res = if let Some(text) = &text_override {
-        write_text(sink.clone(), text, is_bw, sizes.clone(), &opts, &ctx.scratch)
+        write_text(sink.clone(), text, is_bw, sizes.clone(), &opts, &ctx.scratch, coarse_index.clone())
     } else if is_bw {
         wr::write_bw_flat(sink.clone(), flat_bw.clone(), sizes.clone(), &opts, Some(&ctx.scratch))
     } else {
@@ -528,7 +565,7 @@ fn fix_sorted_bb(v: &mut Vec<(String, BedEntry)>) {
 }
 
 /// Text-source write with an arbitrary (possibly malformed) text.
-fn write_text(sink: MemSink, text: &str, is_bw: bool, sizes: HashMap<String, u32>, o: &WOpts, scratch: &std::path::Path) -> CallResult {
+fn write_text(sink: MemSink, text: &str, is_bw: bool, sizes: HashMap<String, u32>, o: &WOpts, scratch: &std::path::Path, given_index: Option<Vec<(u64, String)>>) -> CallResult {
     use bigtools::bed::bedparser::{parse_bed, parse_bedgraph};
     use bigtools::bed::indexer::index_chroms;
     use bigtools::beddata::{BedParserParallelStreamingIterator, BedParserStreamingIterator};
@@ -546,10 +583,13 @@ fn write_text(sink: MemSink, text: &str, is_bw: bool, sizes: HashMap<String, u32
                 let mut w = $w;
                 w.options = opts.clone();
                 if o.source == Source::Parallel {
-                    let idx = match index_chroms(std::fs::File::open(&path).map_err(|e| format!("HARNESS {}", e))?) {
-                        Ok(Some(i)) => i,
-                        Ok(None) => return Err("INDEX_NONE".to_string()),
-                        Err(e) => return Err(format!("INDEX_ERR: {}", e)),
+                    let idx = match &given_index {
+                        Some(i) => i.clone(),
+                        None => match index_chroms(std::fs::File::open(&path).map_err(|e| format!("HARNESS {}", e))?) {
+                            Ok(Some(i)) => i,
+                            Ok(None) => return Err("INDEX_NONE".to_string()),
+                            Err(e) => return Err(format!("INDEX_ERR: {}", e)),
+                        },
                     };
                     if o.multipass {
                         w.write_multipass(|| Ok(BedParserParallelStreamingIterator::new(idx.clone(), allow, path.clone(), $parse)), runtime).map_err(|e| e.to_string())
